@@ -1,13 +1,18 @@
 #!/bin/bash
 # Generate /verif/harness/go.mod from /repo/go.mod so the build list is identical to the repository's.
+# Serialised with flock and published with an atomic rename: checks run concurrently.
 set -euo pipefail
 . /verif/bin/env.sh
 cd /verif/harness
-sed -e 's#^module github.com/basekick-labs/arc$#module github.com/basekick-labs/arc/zzverif#' /repo/go.mod > go.mod.new
-cat >> go.mod.new <<'EOT'
+exec 9>/verif/.build/gomod.lock
+flock 9
+tmp=$(mktemp go.mod.XXXXXX)
+sed -e 's#^module github.com/basekick-labs/arc$#module github.com/basekick-labs/arc/zzverif#' /repo/go.mod > "$tmp"
+cat >> "$tmp" <<'EOT'
 
 require github.com/basekick-labs/arc v0.0.0
 replace github.com/basekick-labs/arc => /repo
 EOT
-if ! cmp -s go.mod.new go.mod 2>/dev/null; then mv go.mod.new go.mod; else rm go.mod.new; fi
-cmp -s /repo/go.sum go.sum 2>/dev/null || cp /repo/go.sum go.sum
+grep -q '^module github.com/basekick-labs/arc/zzverif$' "$tmp" || { rm -f "$tmp"; echo "gen_gomod: /repo/go.mod has no module line"; exit 1; }
+if ! cmp -s "$tmp" go.mod 2>/dev/null; then mv "$tmp" go.mod; else rm -f "$tmp"; fi
+if ! cmp -s /repo/go.sum go.sum 2>/dev/null; then cp /repo/go.sum go.sum.tmp && mv go.sum.tmp go.sum; fi
